@@ -1,8 +1,9 @@
 """C07 - heartbeat (DESIGN.md 5/C07)."""
 from . import sockrules as S
+from . import srvrules as R
 
-META = {'level': 'other', 'explanation': 'see DESIGN.md 5/C07', 'trusted_base': [],
-        'not_decided': [], 'assumptions': []}
+from .meta import meta
+META = meta('C07', level='other', extra_tb=None)
 
 
 def check(A):
@@ -11,3 +12,7 @@ def check(A):
         S.ping_timeout_rules(A, fl, 'C07')
         S.send_rules(A, fl, 'C07')
         S.poll_rules(A, fl, 'C07', timeout_rule='C07')
+        S.get_request_rules(A, fl, 'C07')
+        R.service_task_rules(A, fl, 'C07')
+        R.handle_connect_rules(A, fl, 'C07')
+        S.receive_table(A, fl, 'C07')
